@@ -284,7 +284,7 @@ pub fn run(ctx: &Ctx) -> i32 {
     let rep = par_shards(ctx, shards, |shard| {
         let mut rep = Report::new();
         let mut rng = Rng::new(ctx.seed, "C17", shard as u64);
-        let cfg = GenCfg { max_list: 4, max_entries: 4, ..Default::default() };
+        let cfg = GenCfg { max_list: 4, max_entries: 4, wide_lists: false, ..Default::default() };
         for n in 0..per {
             if ctx.expired() {
                 rep.truncated = true;
